@@ -407,7 +407,9 @@ def collect(ck, rows, P, ev, netinfo, source, first=True):
     if approx_bad:
         ck.inconc("linearisation point differs from the coordinates written")
         ck.count("approx-mismatch", 1)
-        rows.last_reason = "approx %s" % (approx_bad,)
+        if len(ck.counters.get("approx-mismatch samples", [])) < 3:
+            ck.counters.setdefault("approx-mismatch samples", []).append(dict(netinfo, unknown=approx_bad[:2],
+                                                                               event=approx_bad[2], written=approx_bad[3]))
         return 0
     ck.count("approximate coordinates equal to the input, bit for bit", exact)
     # X and Y of a point come together
@@ -421,18 +423,41 @@ def collect(ck, rows, P, ev, netinfo, source, first=True):
         ck.violation("index:row-count", "m=%d, %d rows, %d rhs, %d observations" % (
             ev["m"], len(ev["rows"]), len(ev["rhs"]), len(E)), wit0)
         return 0
+    def same(o, e, k):
+        return o["kind"] == k and o["frm"] == e["from"] and (o["to"] or "") == e["to"]
+
+    def value_agrees(o, e):
+        """the value gama holds is the one written here (used only to tell apart observations of the same
+        kind between the same points when gama left one of them out)"""
+        raw, val = float(e["raw"]), float(o["val"])
+        if o["kind"] in ANGULAR:
+            d = (raw - val * math.pi / 200.0) % (2 * math.pi)
+            return min(d, 2 * math.pi - d) < 1e-9
+        return abs(abs(raw) - abs(val)) <= 1e-9 * max(1.0, abs(val))
+
     match = []
     j = 0
     for e in E:
         k = _kind_of_type(e["type"])
-        while j < len(O) and not (O[j]["kind"] == k and O[j]["frm"] == e["from"] and (O[j]["to"] or "") == e["to"]):
+        while j < len(O) and not same(O[j], e, k):
             j += 1
         if j == len(O):
             ck.inconc("rows could not be matched to the input's observations")
             return 0
+        if not value_agrees(O[j], e):
+            for j2 in range(j + 1, len(O)):
+                if same(O[j2], e, k) and value_agrees(O[j2], e):
+                    j = j2
+                    break
         match.append(O[j])
         j += 1
     ck.count("observations of the input not in the adjustment", len(O) - len(E))
+    if len(O) != len(E):
+        # (gama leaves out e.g. a direction set with a single direction; exclusions are C14's subject)
+        taken_ids = set(id(o) for o in match)
+        for o in O:
+            if id(o) not in taken_ids:
+                ck.count("not in the adjustment: " + o["kind"], 1)
     # --- orientations: one R unknown per direction set, station = the set's station
     r_of_cluster, cluster_of_r = {}, {}
     used = set()
@@ -702,7 +727,7 @@ def judge(ck, rows, want_text):
             if kind not in ("dh", "x", "y", "z", "dx", "dy", "dz"):
                 L = float(out["L"][li])
                 ck.count("sight length 1e%d m" % int(math.floor(math.log10(L))) if L > 0 else "sight length 0", 1)
-            if len(ck.samples) < 6 and (li % 7 == 0):
+            if li == 1 and kind in ("direction", "angle", "azimuth", "s-distance", "z-angle", "dy"):
                 ck.sample(dict(kind=kind, frm=m["frm"], to=m["to"], fs=m["fs"], status=m["status"], geo=m["geo"],
                                frame=m["axes"] + "/" + m["angles"], written=m["written"], gama_row=m["gama_row"],
                                gama_rhs=m["gama_rhs"], oracle_row=[float("%.12g" % float(x)) for x in coefE[li]],
@@ -1181,13 +1206,17 @@ def gen_text(family, seed, i):
 
 # ---------------------------------------------------------------------------- run
 
-RULE = ("rows of the first linear system gama-local builds for generated networks: (a) adversarial star networks "
-        "(hubs + satellites exactly on / next to / off the axes, 0.5 m..50 km, zenith 1..199 gon, coordinates up to "
-        "7e6, every fixed/free/constrained mix, 8 axes-xy x 2 handedness, gon and degrees, horizontal angular "
+RULE = ("design-matrix rows + right-hand sides of the linear systems gama builds for generated inputs, each compared "
+        "with numerically differentiated observation functions: (a) gama-local on adversarial star networks (hubs + "
+        "satellites exactly on / next to / off the axes, 0.5 m..50 km, zenith 1..199 gon, coordinates up to 7e6, "
+        "every fixed/free/constrained mix, 8 axes-xy x 2 handedness, gon and degrees, horizontal angular "
         "misclosures next to and across +-200 gon and whole turns, values written outside [0,400), instrument/"
-        "target heights) and (b) realistic determined networks of the shared generator; all 13 observation kinds. "
-        "class = (kind, quadrant/axis of the sight(s) in gama's frame, status mix of the points, wrap side, "
-        "consistent / y-flipped frame, dimension[, with/without heights]); evaluations = rows compared")
+        "target heights per observation and per set, several direction sets per station), first linearisation; "
+        "(b) gama-local on realistic determined networks of the shared generator, every linearisation of the run; "
+        "(c) LocalLinearization asked directly (netdrv) for single observations, dictated orientations, all-fixed "
+        "mixes; all 13 observation kinds.  evaluations = rows compared; class = (kind, quadrant/axis of the "
+        "sight(s) in gama's frame, status mix of the points, wrap side of the misclosure, consistent / y-flipped "
+        "frame, dimension[, with/without heights]) measured on each row")
 
 
 def run(tier, seed, only=None):
@@ -1287,8 +1316,11 @@ def run(tier, seed, only=None):
         "8 eps |computed|; reductions 1.5e-3 mm / 0.15 cc",
         "z-angle rows with |sin z| < 1e-3 and rows whose two finite-difference estimates disagree are inconclusive",
     ]
-    ck.minimum = dict(evaluations=tier_n(tier, 3000, 150000), distinct=tier_n(tier, 300, 1500),
-                      **{"rows:" + k: tier_n(tier, 20, 1000) for k in KINDS})
+    ck.minimum = dict(evaluations=tier_n(tier, 20000, 250000), distinct=tier_n(tier, 2000, 8000),
+                      **{"rows:" + k: tier_n(tier, 500, 8000) for k in KINDS})
+    ck.minimum.update({"rows via gama-local": tier_n(tier, 15000, 150000), "rows via netdrv": tier_n(tier, 5000, 80000),
+                       "reductions checked:s-distance": tier_n(tier, 300, 5000),
+                       "reductions checked:z-angle": tier_n(tier, 300, 5000)})
     if only is not None:
         ck.minimum = dict(evaluations=1, distinct=1)
     return ck.finish()
